@@ -280,8 +280,8 @@ func (g *genCtx) wrapUpdate(init, stmt, ret string) string {
 	case "global":
 		decl, x = "gx="+init+";", "gx"
 	}
-	stmt = strings.ReplaceAll(stmt, "X", x)
-	ret = strings.ReplaceAll(ret, "X", x)
+	stmt = strings.ReplaceAll(stmt, "@@", x)
+	ret = strings.ReplaceAll(ret, "@@", x)
 	return "(function(){" + decl + stmt + ";return " + ret + "})()"
 }
 
@@ -402,63 +402,63 @@ func (g *genCtx) producer(kind string, v float64, d int) (string, bool) {
 			if !ok {
 				return "", false
 			}
-			return g.wrapUpdate(g.numOrStr(w, d-1), "", "++X"), true
+			return g.wrapUpdate(g.numOrStr(w, d-1), "", "++@@"), true
 		case 1: // x++ then read
 			w, ok := g.stepOperand(v, 1)
 			if !ok {
 				return "", false
 			}
-			return g.wrapUpdate(g.numOrStr(w, d-1), "X++", "X"), true
+			return g.wrapUpdate(g.numOrStr(w, d-1), "@@++", "@@"), true
 		case 2: // x++ returns old ToNumber
-			return g.wrapUpdate(g.numOrStr(v, d-1), "", "X++"), true
+			return g.wrapUpdate(g.numOrStr(v, d-1), "", "@@++"), true
 		case 3:
 			w, ok := g.stepOperand(v, -1)
 			if !ok {
 				return "", false
 			}
-			return g.wrapUpdate(g.numOrStr(w, d-1), "", "--X"), true
+			return g.wrapUpdate(g.numOrStr(w, d-1), "", "--@@"), true
 		case 4:
 			w, ok := g.stepOperand(v, -1)
 			if !ok {
 				return "", false
 			}
-			return g.wrapUpdate(g.numOrStr(w, d-1), "X--", "X"), true
+			return g.wrapUpdate(g.numOrStr(w, d-1), "@@--", "@@"), true
 		case 5:
-			return g.wrapUpdate(g.numOrStr(v, d-1), "", "X--"), true
+			return g.wrapUpdate(g.numOrStr(v, d-1), "", "@@--"), true
 		case 6:
 			dl := g.pick(1, 2, 0.5, two(32), -1)
 			if !sv((v-dl)+dl, v) {
 				return "", false
 			}
-			return g.wrapUpdate(g.gen(v-dl, d-1), "X+="+g.gen(dl, d-1), "X"), true
+			return g.wrapUpdate(g.gen(v-dl, d-1), "@@+="+g.gen(dl, d-1), "@@"), true
 		case 7:
 			dl := g.pick(1, 2, 0.5, two(32), -1)
 			if !sv((v+dl)-dl, v) {
 				return "", false
 			}
-			return g.wrapUpdate(g.numOrStr(v+dl, d-1), "X-="+g.numOrStr(dl, d-1), "X"), true
+			return g.wrapUpdate(g.numOrStr(v+dl, d-1), "@@-="+g.numOrStr(dl, d-1), "@@"), true
 		case 8:
 			k := g.pick(2, -1, 0.5, 4)
 			if !sv((v/k)*k, v) {
 				return "", false
 			}
-			return g.wrapUpdate(g.numOrStr(v/k, d-1), "X*="+g.numOrStr(k, d-1), "X"), true
+			return g.wrapUpdate(g.numOrStr(v/k, d-1), "@@*="+g.numOrStr(k, d-1), "@@"), true
 		case 9:
 			k := g.pick(2, -1, 0.5, 4)
 			if math.IsInf(v*k, 0) || !sv((v*k)/k, v) {
 				return "", false
 			}
-			return g.wrapUpdate(g.numOrStr(v*k, d-1), "X/="+g.numOrStr(k, d-1), "X"), true
+			return g.wrapUpdate(g.numOrStr(v*k, d-1), "@@/="+g.numOrStr(k, d-1), "@@"), true
 		case 10:
 			if !isInt32(v) {
 				return "", false
 			}
-			return g.wrapUpdate(g.numOrStr(v+two(32), d-1), "X|=0", "X"), true
+			return g.wrapUpdate(g.numOrStr(v+two(32), d-1), "@@|=0", "@@"), true
 		default:
 			if !isUint32(v) {
 				return "", false
 			}
-			return g.wrapUpdate(g.numOrStr(v-two(32), d-1), "X>>>=0", "X"), true
+			return g.wrapUpdate(g.numOrStr(v-two(32), d-1), "@@>>>=0", "@@"), true
 		}
 	case "bit":
 		if isInt32(v) || isUint32(v) {
